@@ -128,7 +128,7 @@ RefS(s) ==
                         [] OTHER -> ""))
          \o RefOnConflict(s.on_conflict) \o RefReturning(s.returning)
     [] s.kind = "update" ->
-         RefWith(s.with) \o "UPDATE " \o (IF IsNone(s.table) THEN "?" ELSE RefTName(s.table.v))
+         RefWith(s.with) \o "UPDATE " \o (IF IsNone(s.table) THEN "?" ELSE RefTName(s.table.v)) \o (IF s.talias # "" THEN " AS " \o QId(s.talias) ELSE "")
          \o " SET " \o JoinS([i \in DOMAIN s.values |-> QId(s.values[i].c) \o " = " \o RefE(s.values[i].e)], ", ")
          \o (IF Len(s.from) > 0 THEN " FROM " \o JoinS([i \in DOMAIN s.from |-> RefTable(s.from[i])], ", ") ELSE "")
          \o RefHolder("WHERE", s.where) \o RefReturning(s.returning) \o RefOrders(s.orders) \o (IF IsNone(s.limit) THEN "" ELSE " LIMIT " \o NatToStr(s.limit.n))
